@@ -225,6 +225,16 @@ class StateDom(object):
             op = e.ops[0]
             return self._compare(a, op, b)
         if isinstance(e, ast.BinOp) and isinstance(
+                e.op, (ast.BitOr, ast.BitAnd)):
+            # `flag |= test` on booleans
+            a = self.ev(e.left, env, frame)
+            b = self.ev(e.right, env, frame)
+            if a is RAISES or b is RAISES:
+                return RAISES
+            if isinstance(a, bool) and isinstance(b, bool):
+                return (a or b) if isinstance(e.op, ast.BitOr) else (a and b)
+            return UNK
+        if isinstance(e, ast.BinOp) and isinstance(
                 e.op, (ast.Add, ast.Sub, ast.Mult)):
             # small-integer arithmetic (count / capacity decision tables)
             a = self.ev(e.left, env, frame)
@@ -581,9 +591,21 @@ class StateDom(object):
                                     newvals)
         elif n.kind == 'stmt' and isinstance(st, ast.AugAssign):
             tk = dotted(st.target)
-            for k in keys:
-                if tk and (k == tk or k.startswith(tk + '.')):
-                    havoc.add(k)
+            if isinstance(st.target, ast.Name) and isinstance(
+                    st.op, (ast.Add, ast.Sub, ast.Mult, ast.BitOr,
+                            ast.BitAnd)):
+                # x op= e  is  x = x op e
+                synth = ast.copy_location(ast.BinOp(
+                    left=ast.copy_location(
+                        ast.Name(id=st.target.id, ctx=ast.Load()),
+                        st.target),
+                    op=st.op, right=st.value), st)
+                self._assign_target(st.target, synth, env, frame, keys,
+                                    havoc, newvals)
+            else:
+                for k in keys:
+                    if tk and (k == tk or k.startswith(tk + '.')):
+                        havoc.add(k)
         elif n.kind == 'for':
             for t in ast.walk(st.target):
                 tk = dotted(t)
